@@ -126,7 +126,16 @@ pub fn check_positive(
         };
         let mut file = hdr;
         file.extend_from_slice(&enc.payload);
-        let o = sut::opts(us, None, false);
+        // a limit that covers the whole dictionary can never bind (C10): a sixth of the cases set
+        // one just above the effective dictionary size
+        let ml = if (ctx.index ^ file.len() as u64) % 6 == 2 {
+            let d_eff = (pc.dict as usize).max(4096);
+            cov.name("cases_with_a_non_binding_memory_limit", 1);
+            Some(d_eff + [0usize, 1, 100, 271, 272, 4096][((ctx.index >> 3) % 6) as usize])
+        } else {
+            None
+        };
+        let o = sut::opts(us, ml, false);
         let c = sut::decode(Entry::Lzma, &file, &o, pc.reader, &sink, &obs);
         (c.verdict, file)
     };
